@@ -178,6 +178,9 @@ class HillClimbAllocator:
         """
         for lr in self.lrs:
             lr.address = HillClimbAllocator.NOT_ALLOCATED
+            # The loop below can stop early: a live range that is not reached must not keep the placement of an older trial
+            lr.end_address = 0
+            lr.predecessor = HillClimbAllocator.NO_PREDECESSOR
         size = 0
         for turn, index in enumerate(indices):
             lr = self.lrs[index]
